@@ -182,7 +182,9 @@ func encodePos(encPtr reflect.Value, val syntax.Pos) {
 	// TODO: perhaps we should encode recovered positions, as that is still useful information.
 	// Note that decoding them back requires a way to build a recovered position,
 	// as [syntax.NewPos] clamps offsets and so can never produce one.
-	if !val.IsValid() {
+	// A position whose line and column both overflowed still carries an offset;
+	// only recovered positions and the zero position are left out.
+	if !val.IsValid() && (val.IsRecovered() || val.Offset() == 0) {
 		return
 	}
 	enc := reflect.New(exportedPosType.Elem())
